@@ -41,7 +41,7 @@ def streams(tier, rng, P, only=None, cases=None):
                 for d in (2, 4, 8, 16): add(n, "%s(%d,%d)" % (n, a, d), [a, d])
         elif tt == "Voice":
             for v in (range(1, 129) if big else list(range(1, 129, 7)) + [128]): add(n, "%s(%d)" % (n, v), [v])
-            add(n, "%s(10,3,4)" % n, [10, 3, 4]); add(n, "%s(10,3)" % n, [10, 3])
+            for bank in ([10, 3, 4], [10, 3], [5, 0, 0], [5, 0], [1, 0, 7], [128, 8, 0], [64, 127, 127], [7, 1]): add(n, "%s(%s)" % (n, ",".join(map(str, bank))), bank)
         elif tt == "PitchBend":
             for v in (range(-8192, 8192, 1 if big else 257)): add(n, "%s(%d)" % (n, v), [v])
             for v in (-8192, -1, 0, 1, 8191): add(n, "%s(%d)" % (n, v), [v])
@@ -65,7 +65,8 @@ def streams(tier, rng, P, only=None, cases=None):
         for v in vals7()[::4]: add("y", "y%d,%d" % (c, v), [c, v])
     for v in vals7(): add("p", "p%d" % v, [v]); 
     for v in (range(1, 129) if big else list(range(1, 129, 5)) + [128]): add("@", "@%d" % v, [v])
-    add("@", "@10,3,4", [10, 3, 4]); add("@", "@0", [0]); add("@", "@129", [129])
+    add("@", "@0", [0]); add("@", "@129", [129])
+    for bank in ([10, 3, 4], [10, 3], [5, 0, 0], [5, 0], [1, 0, 7], [128, 8, 0], [64, 127, 127], [7, 1]): add("@", "@" + ",".join(map(str, bank)), bank)   # explicit banks, including bank 0/0
     for no, nm in T["voiceMd"]:
         if int(no) <= 128 or True:
             add("@name", "@" + nm, [], nm)
